@@ -62,6 +62,13 @@ Definition ev_woken (ev : event) : list waker := snd ev.
 Definition is_end (r : res) : bool := match r with RPoll PEnd => true | _ => false end.
 Definition is_err (r : res) : bool := match r with RPoll (PErr _) => true | _ => false end.
 
+(* events by which the feeding side signals how the body ends (executed: result RUnit) *)
+Definition signals_eof (ev : event) : bool :=
+  match ev with (OFeedEof, RUnit, _) => true | _ => false end.
+Definition sets_error (ev : event) : bool :=
+  match ev with (OSetError _, RUnit, _) => true | _ => false end.
+Definition reports_err (ev : event) : bool := is_err (ev_res ev).
+
 (* ---------- the known class `drop-after-error-consumed` (a predicate on the CASE) ----------
    Histories in which, before the sender is dropped, an error was already set on a channel
    created with eof = false, with neither feed_eof nor a reader drop in between. Only in these
@@ -77,4 +84,37 @@ Fixpoint known_scan (seen_err : bool) (os : list op) : bool :=
   end.
 Definition known_case (e : bool) (os : list op) : bool := negb e && known_scan false os.
 
+(* ---------- wake-up vocabulary ----------
+   [quiet who t]: during t the reader does not poll again, is not dropped, and [who] is not woken *)
+Definition quiet_reader (r : waker) (t : list event) : Prop :=
+  forall ev, In ev t -> is_poll (ev_op ev) = false /\ is_reader_drop (ev_op ev) = false /\ ~ In r (ev_woken ev).
+(* during t the feeder does not call need_read again, the reader is not dropped, f is not woken *)
+Definition quiet_feeder (f : waker) (t : list event) : Prop :=
+  forall ev, In ev t -> is_need_read (ev_op ev) = false /\ is_reader_drop (ev_op ev) = false /\ ~ In f (ev_woken ev).
+(* data, end or error signalled through the sender handle *)
+Definition is_signal (o : op) : bool :=
+  match o with OFeedData _ | OFeedEof | OSetError _ => true | _ => false end.
+
 End Spec.
+
+(* ---------- the re-polling feeder (DESIGN.md, C07): an environment in which the holder of the
+   sender calls need_read(f) again whenever its waker f is woken — what h1::Dispatcher does
+   (`can_read` on every poll). [la] is the feeder's belief: the last answer it got. *)
+Section Repoll.
+Context {Chunk : Type}.
+Variable clen : Chunk -> N.
+Variable limit : N.
+
+Definition rstep (f : waker) (st : sys Chunk * option status) (o : op Chunk) : sys Chunk * option status :=
+  let '(s, la) := st in
+  let '(s1, x, w) := step clen limit s o in
+  let la1 := match o, x with ONeedRead _, RStatus a => Some a | _, _ => la end in
+  if existsb (N.eqb f) w then
+    let '(s2, x2, _) := step clen limit s1 (ONeedRead f) in
+    (s2, match x2 with RStatus a => Some a | _ => la1 end)
+  else (s1, la1).
+
+Definition exec_repoll (f : waker) (e : bool) (os : list (op Chunk)) : sys Chunk * option status :=
+  fold_left (rstep f) os (create e, None).
+
+End Repoll.
